@@ -395,6 +395,37 @@ impl PartialEq<AnnotationDataSet> for AnnotationDataSet {
     }
 }
 
+/// Maximum nesting depth of `@include` statements inside annotation data set files
+const MAX_INCLUDE_DEPTH: usize = 16;
+
+thread_local! {
+    /// Number of annotation data set `@include`s currently being resolved on this thread
+    static INCLUDE_DEPTH: std::cell::Cell<usize> = const { std::cell::Cell::new(0) };
+}
+
+/// Counts nested `@include` resolution, decrements again when dropped
+struct IncludeDepthGuard;
+
+impl IncludeDepthGuard {
+    fn enter(filename: &str) -> Result<Self, StamError> {
+        let depth = INCLUDE_DEPTH.with(|d| d.get());
+        if depth >= MAX_INCLUDE_DEPTH {
+            return Err(StamError::DeserializationError(format!(
+                "@include statements for annotation data sets are nested more than {} levels deep at {} (does a file include itself?)",
+                MAX_INCLUDE_DEPTH, filename
+            )));
+        }
+        INCLUDE_DEPTH.with(|d| d.set(depth + 1));
+        Ok(Self)
+    }
+}
+
+impl Drop for IncludeDepthGuard {
+    fn drop(&mut self) {
+        INCLUDE_DEPTH.with(|d| d.set(d.get().saturating_sub(1)));
+    }
+}
+
 impl FromJson for AnnotationDataSet {
     /// Loads an AnnotationDataSet from a STAM JSON file, as a builder
     /// The file must contain a single object which has "@type": "AnnotationDataSet"
@@ -436,6 +467,9 @@ impl FromJson for AnnotationDataSet {
         debug(self.config(), || {
             format!("AnnotationStore::from_json_file: filename={:?}", filename)
         });
+        // an included file may itself contain an @include: guard against files that (directly or
+        // indirectly) include themselves, which would otherwise recurse until the stack overflows
+        let _guard = IncludeDepthGuard::enter(filename)?;
         let reader = open_file_reader(filename, self.config())?;
         let deserializer = &mut serde_json::Deserializer::from_reader(reader);
 
